@@ -42,13 +42,13 @@ inline long next(const char *name, size_t &idx, long dflt) {
 inline void pinMode(int pin, int mode) { printf("M:%d:%d\n", pin, mode); }
 inline void digitalWrite(int pin, int v) { printf("W:%d:%d\n", pin, v ? 255 : 0); }
 inline void analogWrite(int pin, int v) { printf("W:%d:%d\n", pin, v); }
-inline int digitalRead(int pin) { static size_t i = 0; return (int)fwsim::next("FWSIM_DIGITAL", i, 0); }
-inline int analogRead(int pin) { static size_t i = 0; return (int)fwsim::next("FWSIM_ANALOG", i, 0); }
+inline int digitalRead(int pin) { static size_t i = 0; printf("R:%d\n", pin); return (int)fwsim::next("FWSIM_DIGITAL", i, 0); }
+inline int analogRead(int pin) { static size_t i = 0; printf("AR:%d\n", pin); return (int)fwsim::next("FWSIM_ANALOG", i, 0); }
 inline unsigned long millis() { return fwsim::clock_ms(); }
 inline unsigned long micros() { return fwsim::clock_ms() * 1000UL; }
 inline void delay(unsigned long ms) { printf("D:%lu\n", ms); fwsim::clock_ms() += ms; }
 inline void delayMicroseconds(unsigned int) {}
-inline unsigned long pulseIn(int, int, unsigned long = 1000000UL) { static size_t i = 0; return (unsigned long)fwsim::next("FWSIM_PULSE", i, 0); }
+inline unsigned long pulseIn(int pin, int, unsigned long = 1000000UL) { static size_t i = 0; printf("PI:%d\n", pin); return (unsigned long)fwsim::next("FWSIM_PULSE", i, 0); }
 inline void tone(int pin, unsigned int f, unsigned long = 0) { printf("T:%d:%u\n", pin, f); }
 inline void noTone(int pin) { printf("N:%d\n", pin); }
 #ifndef min
@@ -124,7 +124,7 @@ class Print {
 };
 class HardwareSerial : public Print {
  public:
-  void begin(unsigned long) {}
+  void begin(unsigned long b) { printf("SB:%lu\n", b); }
   int available() { return 0; }
   int read() { return -1; }
   String readStringUntil(char) { return String(""); }
